@@ -37,6 +37,9 @@ pub fn write_script_c03(k: usize) -> Vec<OutCall> {
         10 => vec![OutCall::Title("Commands:".into()), OutCall::ListElement("x".into(), "y\nz".into(), 1), OutCall::ListElement("".into(), "".into(), 0)],
         11 => vec![OutCall::ListElement("n".into(), "far".into(), 200), OutCall::ListElement("n".into(), "edge".into(), 33), OutCall::ListElement("n".into(), "edge".into(), 34)],
         12 => vec![OutCall::UwriteChar('é'), OutCall::FmtChar('\n'), OutCall::Title("".into())],
+        // a column sized in characters by the application: longest_name between the name's character count and its length
+        13 => vec![OutCall::ListElement("температура".into(), "t".into(), 11), OutCall::ListElement("влажность".into(), "h".into(), 11), OutCall::ListElement("имя".into(), "".into(), 4)],
+        14 => vec![OutCall::ListElement("₿𝄞".into(), "two characters, seven octets".into(), 3), OutCall::ListElement("₿𝄞".into(), "".into(), 6), OutCall::ListElement("₿𝄞".into(), "".into(), 7)],
         k => write_script(k),
     }
 }
